@@ -164,6 +164,30 @@ fn ext_carry_cases(o: &mut Out, r: &mut Rng, n: usize) {
     }
 }
 
+/// batch inversion at many lengths (the implementation interleaves four chains and may block long inputs):
+/// every length 0..=20, lengths around powers of two up to 4099; Goldilocks and the quadratic extension
+fn batch_inverse_lengths(o: &mut Out, r: &mut Rng, b: &[u64], thorough: bool) {
+    let mut lens: Vec<usize> = (0..=20).collect();
+    lens.extend([31, 32, 33, 63, 64, 65, 127, 129, 255, 256, 257, 511, 513, 1023, 1024, 1025, 1031, 2047, 2048, 2049, 3001, 4099]);
+    if thorough { lens.extend([4096, 4097, 5000, 8191, 8193, 10000]); }
+    for len in lens {
+        let xs: Vec<u64> = (0..len).map(|i| { let mut v = if i % 7 == 0 { mixed_u64(r, b) } else { r.next_u64() }; while v % P == 0 { v = r.next_u64(); } v }).collect();
+        let args: Vec<u128> = xs.iter().map(|&v| v as u128).collect();
+        o.case("batchinv", &args, || {
+            let fs: Vec<F> = xs.iter().map(|&v| F(v)).collect();
+            F::batch_multiplicative_inverse(&fs).iter().map(|v| v.to_canonical_u64()).collect()
+        });
+        if len <= 2049 {
+            let ys: Vec<u64> = (0..2 * len).map(|_| { let mut v = r.next_u64(); while v % P == 0 { v = r.next_u64(); } v }).collect();
+            let args2: Vec<u128> = ys.iter().map(|&v| v as u128).collect();
+            o.case("ext2batchinv", &args2, || {
+                let es: Vec<QuadraticExtension<F>> = ys.chunks(2).map(|c| QuadraticExtension::<F>([F(c[0]), F(c[1])])).collect();
+                QuadraticExtension::<F>::batch_multiplicative_inverse(&es).iter().flat_map(|e| e.0.iter().map(|v| v.to_canonical_u64()).collect::<Vec<_>>()).collect()
+            });
+        }
+    }
+}
+
 /// the linear operations, division and the assigning / iterator forms of the three extension fields
 /// (judged by tools/spec_c14.py only; canonical outputs)
 fn ext_linear_cases(o: &mut Out, r: &mut Rng, b: &[u64], n: usize) {
@@ -373,6 +397,7 @@ pub fn run(seed: u64, tier: &str, w: &mut dyn Write) -> usize {
     ext_cases(&mut o, &mut r, &b, nrand / 10);
     ext_carry_cases(&mut o, &mut r, if tier == "thorough" { 400 } else { 60 });
     ext_linear_cases(&mut o, &mut r, &b, nrand / 20);
+    batch_inverse_lengths(&mut o, &mut r, &b, tier == "thorough");
     generic_cases(&mut o, &mut r, &b, nrand / 30);
     packed_cases(&mut o, &mut r, &b, nrand / 10);
     o.n
